@@ -42,9 +42,9 @@ theorem inv_step (c : Cfg) (ar aq : Nat) (s : S) (l : Label) (h : Inv c ar aq s)
 
 /-- the initial state (stream created, worker scheduled) satisfies the invariant -/
 theorem inv_init (c : Cfg) (ar aq : Nat) : Inv c ar aq (init ar aq) := by
-  refine ⟨?_, ?_, ?_, ?_, ?_, ?_, ?_, ?_, ?_, ?_, ?_, ?_, ?_, ?_, ?_, ?_, ?_, ?_, ?_, ?_, ?_, ?_, ?_, ?_, ?_, ?_, ?_, ?_, ?_, ?_, ?_, ?_, ?_⟩ <;>
+  refine ⟨?_, ?_, ?_, ?_, ?_, ?_, ?_, ?_, ?_, ?_, ?_, ?_, ?_, ?_, ?_, ?_, ?_, ?_, ?_, ?_, ?_, ?_, ?_, ?_, ?_, ?_, ?_, ?_, ?_, ?_, ?_, ?_, ?_, ?_⟩ <;>
     simp [init, K0, K1, K2, K3, K4, K5, K6, K7, K8, K9, K10, K11, K12, K13, K14, K15, K16, K17, K18, K19, K20, K21, K22, K23,
-      K24, K25, K26, K27, K28, K29, K30, K31, K32, snd, Snd.init, nLog, heldRetry, heldRequests, rsHeld, liveCount, streamsOk,
+      K24, K25, K26, K27, K28, K29, K30, K31, K32, K33, snd, Snd.init, nLog, heldRetry, heldRequests, rsHeld, liveCount, streamsOk,
       allDead, upPhase, prePhase, fwdPhase]
 
 /-- **the invariant holds after every schedule** -/
